@@ -9,7 +9,7 @@ import WuffsVerif.Model.Rac.Conc
   read <n>                 -> n=<k> bytes=<hex | #fnv1a64 when k > 48> err=<word>   ((k>0, eof) is printed as nil)
   seek <off> <whence>      -> pos=<p> err=<word>
   seekrange <lo> <hi>      -> err=<word>
-  close                    -> err=<word>
+  close | closenw          -> err=<word>            (closenw = CloseWithoutWaiting, same model step)
   trace n=<N> <event>*     -> accepted | rejected at <k> <event>      (Model/Rac/Conc.lean, protocol events)
 -/
 open WuffsVerif WuffsVerif.Line WuffsVerif.Rac
@@ -90,6 +90,7 @@ def parseOp : List String → Option Op
   | ["seek", off, wh] => do pure (Op.seek (← off.toInt?) (← wh.toInt?))
   | ["seekrange", lo, hi] => do pure (Op.seekRange (← lo.toInt?) (← hi.toInt?))
   | ["close"] => some Op.close
+  | ["closenw"] => some Op.close      -- CloseWithoutWaiting: same results as Close
   | _ => none
 
 def c14Step (st : DState) (l : List String) : DState × String :=
